@@ -142,6 +142,17 @@ var seedExpectations = []seedExpect{
 	{"C15-f", "C15", "shape.indexlen", "hlsl/internal/codegen.Writer.getAccessMaxIndex/MatrixType"},
 	{"C16-f", "C16", "names.rawuse", "hlsl/internal/codegen.Writer.writeMatCx2StoreIfNeeded:Fprintf(fieldName)#1"},
 	{"C17-f", "C17", "bounds.sameslice", "hlsl/internal/codegen.Writer.writeEPOutputStruct:fragEP.Module.Types[arg.Type]#1"},
+	// seventh batch (-g)
+	{"C06-g", "C06", "ptr.sharedaddr", "tryFoldVectorMath:&h"},
+	{"C07-g", "C07", "layout.arrayround", "typeAlignmentAndSize:ArrayType"},
+	{"C03-g", "C03", "emit.loopbound", "writeWorkgroupZeroInit:for"},
+	{"C10-g", "C10", "abort.discardok", "Parser.postfix:ident"},
+	{"C12-g", "C12", "maporder", "analyzeGlobalWriteUsage:range(funcCalls)"},
+	{"C08-g", "C08", "lex.splitremainder", "expectTemplateClose:TokenGreaterGreaterEqual"},
+	{"C19-g", "C19", "lex.splitremainder", "expectTemplateClose:TokenGreaterGreaterEqual"},
+	{"C13-g", "C13", "promote.loopaware", "promoteBlocksIn:StmtLoop"},
+	{"C15-g", "C15", "clamp.rawafter", "emitImageLoadRestrict:UMin(levelID)"},
+	{"C11-g", "C11", "lookup.innerfirst", "resolveIdentifier"},
 	// hand-made positive controls (controls/)
 	{"globals-write", "C12", "globals.nowrite", "typeNameCache"},
 	{"rzsw-nomerge", "C02", "spirv.mergefirst", "emitImageLoadRZSW"},
